@@ -1,10 +1,13 @@
 (* Property C03 - the ledger is a function of the main chain alone (reorganisations are exact).
    Statements only; proofs in Proofs/Pointwise.v, Proofs/Undo.v (transactions of every kind, staker reward),
    Proofs/Undo2.v (lists of transactions, blocks), Proofs/Undo4.v (the invariants along chains, several blocks),
-   Proofs/UndoRefuted.v (concrete evaluations), Proofs/NodeBasics.v. *)
-From Virel Require Import Lib.Config Lib.U64 Lib.AMap Gen.Params Model.Emission Model.Ledger Model.Node
-  Proofs.Emission Proofs.Conservation Proofs.Pointwise Proofs.StakedSum Proofs.NodeBasics
-  Proofs.Undo Proofs.Undo2 Proofs.Undo4 Proofs.UndoRefuted.
+   Proofs/UndoRefuted.v (concrete evaluations), Proofs/NodeBasics.v; the node-level theorem "ledger = replay of the
+   main chain" in Proofs/Replay1.v (ApplyBlockToState respects agreement), Replay2.v (ledgers), Replay3.v (the loops of
+   CheckReorgs on the ledger), Replay4.v (every delivery sequence), Replay5.v (premises reduced by stateless validation). *)
+From Virel Require Import Lib.Config Lib.U64 Lib.AMap Gen.Params Model.Emission Model.Ledger Model.Node Spec.Chain
+  Proofs.Emission Proofs.Conservation Proofs.Pointwise Proofs.StakedSum Proofs.NodeBasics Proofs.ForkChoice Proofs.ChainInv
+  Proofs.Refine2 Proofs.Undo Proofs.Undo2 Proofs.Undo4 Proofs.UndoRefuted
+  Proofs.Replay1 Proofs.Replay2 Proofs.Replay3 Proofs.Replay4 Proofs.Replay5 Proofs.Replay6 Proofs.ChainExamples.
 Open Scope N_scope.
 
 Theorem C03_cfg_ok_mainnet : cfg_ok_emission cfg_mainnet = true. Proof. vm_compute. reflexivity. Qed.
@@ -255,10 +258,121 @@ Theorem C03_reject_unchanged : forall cfg genesis_addr team_key n b now n' c amb
 Proof. exact deliver_rejected_unchanged. Qed.
 Print Assumptions C03_reject_unchanged.
 
-(* STILL MISSING for "the ledger is a function of the main chain alone" as a theorem about the node:
-   C03_undo_chain_general delivers, at the common ancestor, a ledger that agrees (leqv: accounts extensionally, delegate
-   table, staked total) with the ledger a node following the main chain only has there.  Not proved: that connecting
-   the blocks of the other branch from an agreeing ledger yields agreeing ledgers (ApplyBlockToState respects leqv; it
-   reads accounts only through lookups with the all-zero default or after an existence check that agreeing ledgers
-   share), and the composition with check_reorgs of Model/Node.v.  That half remains covered by the implementation-side
-   comparison with a fresh node (Check/C03.v, including the order of the funds: code 9). *)
+(* ================================================================================================================ *)
+(* THE FIRST SENTENCE OF THE PROPERTY, as a theorem about the node: whatever route a node took to its current main chain
+   (extensions, any number of reorganisations, refused or crashing deliveries, blocks of other branches stored), its
+   ledger is the one of a node that applied that main chain from genesis.
+
+   n0 = the node after the genesis block; n = the node after any sequence of deliveries (any blocks, any order, any clock
+   readings).  [mchain n] = the stored blocks filed in the height index under the heights 1 .. top_h, lowest first
+   (C03_main_chain_is_height_index); [lbs n] turns each into the ledger's view of it, with the lottery value of its stored
+   parent (what apply_block_node passes); Conservation.apply_chain applies them one after the other to the genesis ledger,
+   each with top height = its height - 1 (what add_mainchain_block and reorg_connect pass: TopHeight follows the chain).
+   CONCLUSION: that replay succeeds and its result agrees with the node's ledger: accounts as functions (an absent record
+   = an all-zero record: a reorganisation leaves the emptied records behind), delegate table as a list, staked total.
+
+   PREMISES, all about the final block store (which only grows):
+     cfg_ok_emission, cfg_ok_feepos          conditions on the constants (hold for the four configurations, below);
+     genesis at height 0 with b_cd = b_diff, fewer than 2^64 - 1 deliveries (the chain-structure theorems of C10);
+     Forall tx_c (b_txs g)                   the genesis block's own transactions are well formed (it has none);
+     typed                                   every transaction of a stored block has uint64-typed amounts and the version
+                                             byte of its payload kind (facts about the codec: Props/C16-C18, Refine2W.v
+                                             shows that ApplyTxToState itself does not check the version byte);
+     paths                                   along every chain of stored blocks from genesis the block hashes and the
+                                             transaction ids are pairwise distinct (they key the delegate history; for real
+                                             hashes this is the nonce rule) and the per-address counters cannot wrap
+                                             (fewer than 2^64 outputs and transactions along a chain).
+   Everything else the undo and the congruence need is PROVED to hold: every stored block passed PrevalidateBlock
+   (overflow-free totals, fee > 0, stakes > 0), the staking invariants SInv/FPos/FUniq hold on every ledger of the replay,
+   the supply leaves room for each reward, the delegate-history entries a disconnection reads are those the connection
+   wrote (stale entries of abandoned branches are never read). *)
+Theorem C03_cfg_feepos_mainnet : cfg_ok_feepos cfg_mainnet = true. Proof. vm_compute. reflexivity. Qed.
+Theorem C03_cfg_feepos_testnet : cfg_ok_feepos cfg_testnet = true. Proof. vm_compute. reflexivity. Qed.
+Theorem C03_cfg_feepos_unittest : cfg_ok_feepos cfg_unittest = true. Proof. vm_compute. reflexivity. Qed.
+Theorem C03_cfg_feepos_verifnet : cfg_ok_feepos cfg_verifnet = true. Proof. vm_compute. reflexivity. Qed.
+
+Theorem C03_ledger_is_replay : forall cfg genesis_addr team_key g n0 ops,
+  cfg_ok_emission cfg = true -> cfg_ok_feepos cfg = true ->
+  node0 cfg genesis_addr g = Ok n0 -> b_height g = 0 -> b_cd g = b_diff g ->
+  N.of_nat (length ops) < two64 - 1 ->
+  let n := run cfg genesis_addr team_key n0 ops in
+  Forall (tx_c cfg) (b_txs g) ->
+  (forall h b, get_block n h = Some b -> Forall (fun t => wf_tx cfg t /\ ver_ok t = true) (b_txs b)) ->
+  (forall bs, up (b_hash g) (blocks n) (b_hash g) bs ->
+     NoDup (bkeys g ++ flat_map bkeys bs) /\ c0 g + bnouts bs < two64 /\ c0 g + bntx bs < two64) ->
+  exists lr, apply_chain cfg genesis_addr (ldg n0) (lbs n (mchain n)) = Ok lr /\
+    same_accounts (ldg n) lr /\ dlgs (ldg n) = dlgs lr /\ staked (ldg n) = staked lr.
+Proof. exact ledger_is_replay_validated. Qed.
+Print Assumptions C03_ledger_is_replay.
+
+(* the same with the per-transaction conditions as one premise on the store (no use of stateless validation) *)
+Theorem C03_ledger_is_replay_general : forall cfg genesis_addr team_key g n0 ops,
+  cfg_ok_emission cfg = true ->
+  node0 cfg genesis_addr g = Ok n0 -> b_height g = 0 -> b_cd g = b_diff g ->
+  N.of_nat (length ops) < two64 - 1 ->
+  let n := run cfg genesis_addr team_key n0 ops in
+  store_pre cfg g (blocks n) ->
+  exists lr, apply_chain cfg genesis_addr (ldg n0) (lbs n (mchain n)) = Ok lr /\
+    same_accounts (ldg n) lr /\ dlgs (ldg n) = dlgs lr /\ staked (ldg n) = staked lr.
+Proof. exact ledger_is_replay. Qed.
+Print Assumptions C03_ledger_is_replay_general.
+
+(* non-vacuity: every premise holds for the history of Proofs/ChainExamples.v that reorganises from G-A1-A2-A3 to the
+   heavier chain G-B-D (three blocks disconnected, two connected); its final ledger is the replay of [B; D] *)
+Theorem C03_replay_premises_satisfiable :
+  node0 cfg_verifnet 7 w_genesis = Ok ex_n0 /\
+  let n := run cfg_verifnet 7 0 ex_n0 sr_ops in
+  cfg_ok_emission cfg_verifnet = true /\ cfg_ok_feepos cfg_verifnet = true /\
+  b_height w_genesis = 0 /\ b_cd w_genesis = b_diff w_genesis /\ N.of_nat (length sr_ops) < two64 - 1 /\
+  Forall (tx_c cfg_verifnet) (b_txs w_genesis) /\
+  (forall h b, get_block n h = Some b -> Forall (fun t => wf_tx cfg_verifnet t /\ ver_ok t = true) (b_txs b)) /\
+  (forall bs, up (b_hash w_genesis) (blocks n) (b_hash w_genesis) bs ->
+     NoDup (bkeys w_genesis ++ flat_map bkeys bs) /\ c0 w_genesis + bnouts bs < two64 /\ c0 w_genesis + bntx bs < two64) /\
+  map b_hash (mchain n) = [4; 6] /\
+  exists lr, apply_chain cfg_verifnet 7 (ldg ex_n0) (lbs n (mchain n)) = Ok lr /\
+    same_accounts (ldg n) lr /\ dlgs (ldg n) = dlgs lr /\ staked (ldg n) = staked lr.
+Proof. exact replay_premises_satisfiable. Qed.
+Print Assumptions C03_replay_premises_satisfiable.
+
+(* [mchain n] is the main chain: its hashes are the entries 1 .. top_h of the height index, and each is a stored block *)
+Theorem C03_main_chain_is_height_index : forall cfg genesis_addr team_key g n0 ops,
+  node0 cfg genesis_addr g = Ok n0 -> b_height g = 0 -> b_cd g = b_diff g ->
+  N.of_nat (length ops) < two64 - 1 ->
+  let n := run cfg genesis_addr team_key n0 ops in
+  map (fun b => Some (b_hash b)) (mchain n) = map (fun j => get_topo n (N.of_nat j)) (seq 1 (N.to_nat (top_h n))) /\
+  Forall (fun b => get_block n (b_hash b) = Some b) (mchain n).
+Proof. exact mchain_is_height_index. Qed.
+Print Assumptions C03_main_chain_is_height_index.
+
+(* the application side respects agreement (the half that was missing next to the undo theorems): when a chain of blocks
+   applies to a ledger [lb], it applies to every ledger [ls] that agrees with it and carries at most fewer all-zero
+   account records, with agreeing results and the same writes [W] to the delegate history.
+   tx_cond = uint64-typed amounts, overflow-free total, fee > 0, version byte of the payload kind. *)
+Theorem C03_apply_respects_agreement : forall cfg genesis_addr bs ls lb lbn,
+  leqv ls lb -> Forall (fun b => Forall (tx_cond cfg) (lb_txs b)) bs ->
+  apply_chain cfg genesis_addr lb bs = Ok lbn ->
+  exists lsn W, apply_chain cfg genesis_addr ls bs = Ok lsn /\ leqv lsn lbn /\
+    (forall k, In k (map fst W) -> In k (chain_keys bs)) /\
+    dhist lsn = wr W (dhist ls) /\ dhist lbn = wr W (dhist lb).
+Proof. exact cong_apply_chain. Qed.
+Print Assumptions C03_apply_respects_agreement.
+
+(* the ledger-level step of a reorganisation: disconnect the blocks O above the prefix P, connect the blocks N *)
+Theorem C03_reorganisation_keeps_replay : forall cfg genesis_addr, cfg_ok_emission cfg = true ->
+  forall l0 gk c0 P O N L L2 L3,
+  base_ok cfg l0 gk c0 -> chain_ok cfg gk c0 (P ++ O) -> chain_ok cfg gk c0 (P ++ N) ->
+  RInv cfg genesis_addr l0 (P ++ O) L ->
+  remove_chain cfg genesis_addr L (rev O) = Ok L2 ->
+  apply_chain cfg genesis_addr L2 N = Ok L3 ->
+  RInv cfg genesis_addr l0 (P ++ N) L3.
+Proof. exact RInv_reorg. Qed.
+Print Assumptions C03_reorganisation_keeps_replay.
+
+(* REMAINING GAPS of the first sentence of C03:
+   - the premises [typed] and [paths] above are stated on the store, not derived (transaction ids and block hashes are
+     symbolic numbers in the model; the typing is a property of the decoder);
+   - the conclusion compares accounts as functions: the node's account index may hold all-zero records (left by the undo
+     of the blocks of an abandoned branch) that a node which never saw that branch does not hold.  That difference is
+     real in the model and invisible to every rule as long as fees are positive (it is exactly what C03_apply_respects_
+     agreement handles); the wallet indexes (intx, outtx, txh) and stale delegate-history entries are outside the
+     statement (C17 speaks about the wallet indexes). *)
